@@ -40,6 +40,13 @@ SmallRest(sh) == sh \in {"newline_and_small_rest", "small_no_newline"}
 \* does write_all put bytes on the descriptor itself?
 WritesThrough(sh) == HasLines(sh) \/ ~SmallRest(sh)
 CONSTANT FlushBeforeReturn
+\* The rasn backend pipes the text through a rustfmt it finds next to cargo.  Formatting is cosmetic: a formatter that is
+\* absent, or found but failing (exit status other than 0 / 3, a proxy without the component), leaves the text as generated
+\* and does not make the compilation fail.  "identity" is a formatter that works (the harness stages one that copies its
+\* input, so that the delivered text stays comparable byte for byte).  FormatErrorSurfaces is the design that reports the
+\* formatter's failure as the call's Err *after* the text has been delivered -- refuted below: an Err must carry nothing.
+Formatters == {"absent", "identity", "fails"}
+CONSTANT FormatErrorSurfaces
 Inputs == {"good", "malformed", "missing_source"}
 
 \* the file the text goes to: the given path, or generated.<ext> inside the given directory
@@ -66,30 +73,34 @@ Stdout(mode, dest, compiled) == IF mode = "stdout" /\ compiled = "ok" /\ StreamT
 (* compile() as the code performs it *)
 VARIABLES mode, dest, input, pc, compiled, target, others, stdout, result,
           shape,      \* the text's shape (fixed by the scenario)
-          buffered    \* does the stream's buffer hold an unwritten rest?
-vars == <<mode, dest, input, pc, compiled, target, others, stdout, result, shape, buffered>>
+          buffered,   \* does the stream's buffer hold an unwritten rest?
+          fmt         \* the formatter in reach (fixed by the scenario)
+vars == <<mode, dest, input, pc, compiled, target, others, stdout, result, shape, buffered, fmt>>
+\* what the call returns when delivery went well
+Final == IF FormatErrorSurfaces /\ fmt = "fails" THEN "err" ELSE "ok"
 
 Init == /\ mode \in Modes /\ dest \in DestsOf(mode) /\ input \in Inputs
         /\ pc = "start" /\ compiled = "?" /\ target = TargetBefore(dest) /\ others = "same"
         /\ stdout = "empty" /\ result = "?"
         /\ shape \in (IF mode = "stdout" THEN Shapes ELSE {"ends_in_newline"}) /\ buffered = FALSE
+        /\ fmt \in Formatters
 \* internal_compile()?  -- `?' returns before output_generated is reached
 InternalCompile ==
     /\ pc = "start"
     /\ compiled' = IF input = "good" THEN "ok" ELSE "err"
     /\ IF input = "good" THEN pc' = "deliver" /\ UNCHANGED result ELSE pc' = "done" /\ result' = "err"
-    /\ UNCHANGED <<mode, dest, input, target, others, stdout, shape, buffered>>
+    /\ UNCHANGED <<mode, dest, input, target, others, stdout, shape, buffered, fmt>>
 \* fs::write(path) = open(create, truncate) ...
 Open ==
     /\ pc = "deliver" /\ ToFile(mode)
     /\ IF Writable(dest) THEN pc' = "write" /\ target' = "EMPTY" /\ UNCHANGED result
        ELSE pc' = "done" /\ result' = "err" /\ UNCHANGED target
-    /\ UNCHANGED <<mode, dest, input, compiled, others, stdout, shape, buffered>>
+    /\ UNCHANGED <<mode, dest, input, compiled, others, stdout, shape, buffered, fmt>>
 \* ... write_all
 Write ==
     /\ pc = "write"
-    /\ target' = "NEW" /\ pc' = "done" /\ result' = "ok"
-    /\ UNCHANGED <<mode, dest, input, compiled, others, stdout, shape, buffered>>
+    /\ target' = "NEW" /\ pc' = "done" /\ result' = Final
+    /\ UNCHANGED <<mode, dest, input, compiled, others, stdout, shape, buffered, fmt>>
 \* stdout().write_all(text): the part through the last line break goes to the descriptor now (and may fail),
 \* the unterminated rest into the buffer (which cannot fail)
 ToStdout ==
@@ -99,25 +110,25 @@ ToStdout ==
        ELSE /\ stdout' = IF ~SmallRest(shape) THEN "NEW" ELSE IF HasLines(shape) THEN "PREFIX" ELSE "empty"
             /\ buffered' = SmallRest(shape)
             /\ IF FlushBeforeReturn THEN pc' = "flush" /\ UNCHANGED result
-               ELSE pc' = "done" /\ result' = "ok"
-    /\ UNCHANGED <<mode, dest, input, compiled, target, others, shape>>
+               ELSE pc' = "done" /\ result' = Final
+    /\ UNCHANGED <<mode, dest, input, compiled, target, others, shape, fmt>>
 \* stdout().flush() before output_generated returns: the rest reaches the descriptor or the call is an Err
 FlushStdout ==
     /\ pc = "flush"
     /\ IF buffered /\ ~StreamTakes(dest) THEN result' = "err" /\ UNCHANGED <<stdout, buffered>>
-       ELSE result' = "ok" /\ buffered' = FALSE /\ stdout' = (IF buffered THEN "NEW" ELSE stdout)
+       ELSE result' = Final /\ buffered' = FALSE /\ stdout' = (IF buffered THEN "NEW" ELSE stdout)
     /\ pc' = "done"
-    /\ UNCHANGED <<mode, dest, input, compiled, target, others, shape>>
+    /\ UNCHANGED <<mode, dest, input, compiled, target, others, shape, fmt>>
 \* the process ends: what is still buffered is written if the stream takes it, and silently lost otherwise
 ProcessExit ==
     /\ pc = "done" /\ buffered
     /\ buffered' = FALSE
     /\ stdout' = IF StreamTakes(dest) THEN "NEW" ELSE stdout
-    /\ UNCHANGED <<mode, dest, input, pc, compiled, target, others, result, shape>>
+    /\ UNCHANGED <<mode, dest, input, pc, compiled, target, others, result, shape, fmt>>
 Nowhere ==
     /\ pc = "deliver" /\ mode = "none"
-    /\ pc' = "done" /\ result' = "ok"
-    /\ UNCHANGED <<mode, dest, input, compiled, target, others, stdout, shape, buffered>>
+    /\ pc' = "done" /\ result' = Final
+    /\ UNCHANGED <<mode, dest, input, compiled, target, others, stdout, shape, buffered, fmt>>
 Next == InternalCompile \/ Open \/ Write \/ ToStdout \/ FlushStdout \/ ProcessExit \/ Nowhere
 Spec == Init /\ [][Next]_vars
 
@@ -135,6 +146,8 @@ ExactOnSuccess == (Done /\ result = "ok" /\ ToFile(mode)) => target = "NEW"
 \* an unwritable destination is an Err and leaves the destination as it was
 UnwritableIsErr == /\ (Done /\ compiled = "ok" /\ ToFile(mode) /\ ~Writable(dest)) => result = "err" /\ target = TargetBefore(dest)
                    /\ (Done /\ compiled = "ok" /\ mode = "stdout" /\ ~StreamTakes(dest)) => result = "err"
+\* an Err carries nothing: whatever made the call fail, the destination is as it was and nothing went to standard output
+ErrMeansNothing == (Done /\ result = "err") => target = TargetBefore(dest) /\ stdout = "empty" /\ others = "same"
 \* Ok means delivered: whoever reads the stream after an Ok has the whole text
 OkMeansDelivered == (Done /\ result = "ok" /\ mode = "stdout") => stdout = "NEW"
 \* the window in which the destination holds neither the old nor the new text exists only between Open and Write
